@@ -115,8 +115,16 @@ var specPeerSharing = &specProto{Name: "peersharing", Init: "Idle", States: map[
 	"Done": {agNone, nil},
 }}
 
+// leios-notify: used only to drive a conforming raw responder in ADV-CALLS (the
+// automaton is the draft's request/notification loop; C16 does not claim it).
+var specLeiosNotify = &specProto{Name: "leiosnotify", Init: "Idle", States: map[string]specState{
+	"Idle": {agClient, []specTrans{{0, 0, "Busy", "NotificationRequestNext"}, {5, 0, "Done", "Done"}}},
+	"Busy": {agServer, []specTrans{{2, 0, "Idle", "BlockOffer"}}},
+	"Done": {agNone, nil},
+}}
+
 func init() {
-	for _, sp := range []*specProto{specHandshake, specChainSync, specBlockFetch, specTxSubmission, specKeepAlive, specLocalTxSubmission, specLocalStateQuery, specLocalTxMonitor, specPeerSharing} {
+	for _, sp := range []*specProto{specLeiosNotify, specHandshake, specChainSync, specBlockFetch, specTxSubmission, specKeepAlive, specLocalTxSubmission, specLocalStateQuery, specLocalTxMonitor, specPeerSharing} {
 		seen := map[[2]int]bool{}
 		for _, name := range sortedKeys(sp.States) {
 			for _, t := range sp.States[name].Trans {
